@@ -32,7 +32,7 @@ var descPool = []string{"plain words", "Two  spaces", "ends with dot.", "x", "UP
 var HostileText = []string{
 	"a \"quoted\" word", "back\\slash", "line one\nline two", "triple \"\"\" inside", "ends with quote\"", "\"starts with quote", "ends with backslash\\",
 	"unicode é ü 😀 ℵ", "tab\there", "  leading blanks", "trailing blanks  ", "\\n literal backslash-n", "a\n\nb (blank line)", "# not a comment",
-	"\\\"", "\"\"", "mixed \"q\" and \\ and \n newline", "\\u0041", "€uro", "ctl \x01 char", "\r\ncrlf",
+	"\\\"", "\"\"", "\"\"\"\"", "five \"\"\"\"\" quotes", "\"\\", "q\"\\x", "\\\\", "mixed \"q\" and \\ and \n newline", "\\u0041", "€uro", "ctl \x01 char", "\r\ncrlf",
 }
 
 type gen struct {
@@ -124,12 +124,13 @@ func (g *gen) Literal(tr *hx.TRef, label string, depth int) hx.Val {
 	case "Int":
 		return hx.I64(rapid.SampledFrom([]int64{0, 1, -1, 42, 2147483647, -2147483648}).Draw(t, label+"i"))
 	case "Int64":
-		return hx.I64(rapid.SampledFrom([]int64{0, 1 << 40, -9, 9007199254740993}).Draw(t, label+"i64"))
+		return hx.I64(rapid.SampledFrom([]int64{0, 1 << 40, -9, 9007199254740993, 9223372036854775807, -9223372036854775808, -9223372036854775807}).Draw(t, label+"i64"))
 	case "Float":
 		return hx.F64(rapid.SampledFrom([]float64{0.5, -2.25, 1.5e10, 3, 0, 1e-3, -0.125, 3.141592653589793, 0.30000000000000004, 2e-10}).Draw(t, label+"f"))
 	case "Float64":
 		return hx.F64(rapid.SampledFrom([]float64{0.1, 1e300, -2.5e-300, 12345.678, 7, 3.141592653589793, 0.30000000000000004, 1.0000000000000002,
-			2.220446049250313e-16, 1.7976931348623157e308, 5e-324, 1e-05, 123456789012345680}).Draw(t, label+"f64"))
+			2.220446049250313e-16, 1.7976931348623157e308, 5e-324, 1e-05, 123456789012345680,
+			9223372036854775808, -9223372036854775808, 18446744073709551616, 1e19, 4294967296, -2147483649, 1e15, 1e21, 100}).Draw(t, label+"f64"))
 	case "Boolean":
 		return hx.Bool(rapid.Bool().Draw(t, label+"b"))
 	case "ID":
@@ -179,9 +180,10 @@ func (g *gen) dirUses(loc, label string) []hx.DirUse {
 	for _, a := range d.Args {
 		if a.Type.NonNull && a.Default == nil || rapid.Bool().Draw(g.t, label+a.Name+"give") {
 			v := g.Literal(a.Type, label+a.Name, 0)
-			if v.IsNil() {
+			if v.IsNil() && (a.Type.NonNull || rapid.Bool().Draw(g.t, label+a.Name+"dropNull")) {
 				continue
 			}
+			// (an explicit null is kept: it overrides a default of the definition)
 			du.Args = append(du.Args, hx.KV{Key: a.Name, V: v})
 		}
 	}
@@ -320,8 +322,34 @@ func GenFull(t *rapid.T, o Opts) *hx.Schema {
 	// directive definitions
 	for i := 0; i < nDir; i++ {
 		d := &hx.DirDef{Name: fmt.Sprintf("d%d", i)}
+		// directives and types live in different name spaces: a directive may be called like a type
+		if len(s.Types) > 0 && rapid.IntRange(0, 4).Draw(t, d.Name+"likeType") == 0 {
+			cand := s.Types[rapid.IntRange(0, len(s.Types)-1).Draw(t, d.Name+"likeWhich")].Name
+			taken := false
+			for _, od := range s.Dirs {
+				if od.Name == cand {
+					taken = true
+				}
+			}
+			if !taken {
+				d.Name = cand
+			}
+		}
 		n := rapid.IntRange(1, 5).Draw(t, d.Name+"nloc")
 		d.On = append(d.On, rapid.Permutation(allLocations).Draw(t, d.Name+"locs")[:n]...)
+		if rapid.IntRange(0, 2).Draw(t, d.Name+"onArgs") == 0 {
+			for _, extra := range []string{"ARGUMENT_DEFINITION", "INPUT_FIELD_DEFINITION"} {
+				has := false
+				for _, on := range d.On {
+					if on == extra {
+						has = true
+					}
+				}
+				if !has {
+					d.On = append(d.On, extra)
+				}
+			}
+		}
 		sort.Strings(d.On)
 		for j := 0; j < rapid.IntRange(0, 2).Draw(t, d.Name+"nargs"); j++ {
 			a := &hx.Arg{Name: []string{"p", "q"}[j]}
@@ -330,6 +358,27 @@ func GenFull(t *rapid.T, o Opts) *hx.Schema {
 				v := g.Literal(a.Type, d.Name+a.Name+"def", 0)
 				if !v.IsNil() {
 					a.Default = &v
+				}
+			}
+			// uses of earlier directives on the arguments of this one: an acyclic graph in which one
+			// directive may well be used several times
+			for _, od := range g.dirs {
+				// (ggql takes the argument of a directive definition for an INPUT_FIELD_DEFINITION,
+				// GraphQL proper for an ARGUMENT_DEFINITION: only directives allowing both are used)
+				nloc := 0
+				for _, on := range od.On {
+					if on == "ARGUMENT_DEFINITION" || on == "INPUT_FIELD_DEFINITION" {
+						nloc++
+					}
+				}
+				usable := nloc == 2
+				for _, oa := range od.Args {
+					if oa.Type.NonNull && oa.Default == nil {
+						usable = false
+					}
+				}
+				if usable && rapid.IntRange(0, 2).Draw(t, d.Name+a.Name+"uses"+od.Name) == 0 {
+					a.Dirs = append(a.Dirs, hx.DirUse{Name: od.Name})
 				}
 			}
 			d.Args = append(d.Args, a)
